@@ -35,6 +35,14 @@ def cases(draw):
         if target["mode"] == "classes":
             target["classes"] = target["classes"] + ["http://ex.org/C9"]      # a requested class without instances: empty shape
     thr = draw(st.sampled_from([0, 0, 0, 0.5, 1 / 3, 1]))
+    if draw(st.integers(0, 4)) == 0 and not any(t[0][0] == "bnode" or t[2][0] == "bnode" for t in g["triples"]):
+        # shape-map shapes (they may consist of incoming constraints only, or of none)
+        from . import c10
+        target = {"mode": "sm", "with_all": draw(st.booleans()),
+                  "items": [{"sel": draw(c10.selector(g)), "label": "<http://sh.org/S%d>" % i,
+                             "styles": draw(st.lists(st.integers(0, 1), min_size=4, max_size=4))} for i in range(draw(st.integers(1, 3)))]}
+        cfg["inverse_paths"] = draw(st.sampled_from([True, True, False]))
+        cfg.pop("namespaces_dict", None)
     case = {"g": g, "cfg": cfg, "target": target, "thr": thr}
     if draw(st.integers(0, 3)) == 0:
         # the two documents are taken from files; the files may hold the documents of an earlier extraction (another
@@ -129,7 +137,17 @@ def check(case):
     if "big" in case["g"]:
         from . import c18
         case = dict(case, g=c18.big_graph(case["g"]["big"]))
-    kw, triples = common.base_kwargs(case)
+    sm = case["target"] if case["target"]["mode"] == "sm" else None
+    if sm is not None:
+        from .. import selectors
+        from . import c10
+        kw, triples = common.base_kwargs(dict(case, target={"mode": "all"}))
+        if not sm["with_all"]:
+            kw.pop("all_classes_mode", None)
+        kw["shape_map_raw"] = "\n".join("%s@%s" % (selectors.render(it["sel"], c10.NSD, it["styles"]), it["label"]) for it in sm["items"])
+        kw["namespaces_dict"] = dict(c10.NSD)
+    else:
+        kw, triples = common.base_kwargs(case)
     cfg = case["cfg"]
     inst_prop = case["g"]["inst_prop"]
     thr = case["thr"]
@@ -192,7 +210,9 @@ def check(case):
     viol = list(problems)
     if set(hshapes) != sshapes:
         viol.append("node shapes %s vs ShExC shapes %s" % (sorted(hshapes), sorted(sshapes)))
-    sel = common.selection(case, triples)
+    if sm is not None:
+        labels.add("shape-map")
+    sel = common.selection(case, triples) if sm is None else (refmodel.select_by_classes(triples, inst_prop) if sm["with_all"] else {})
     label_of = common.labels_for(sel)
     for c, lab in label_of.items():
         if lab in hshapes and hshapes[lab] != [c] and len(set(label_of.values())) == len(label_of):
